@@ -966,7 +966,6 @@ func c07NodeAfterError(c *Ctx, r *Result) {
 	r.Floor("R07f-uses", nSites, 40)
 }
 
-
 // drainOnly: the function does nothing with its channel parameter but receive from it.
 func drainOnly(fn *ssa.Function, prm *ssa.Parameter) bool {
 	if prm.Referrers() == nil {
